@@ -388,8 +388,10 @@ def run_harness(rec, scratch, mem_gb, timeout, calibrate=False):
     ladder = [n for n in (2, 3, 4, 5, 6, 7, 8, 10, 12, 16, 20, 24, 34, 48, 67, 131) if n < top] + [top]
     if calibrate:
         tries = ladder
-    elif cal is not None and cal <= top:
-        tries = [cal] + [n for n in ladder if n > cal]
+    elif cal is not None and cal < top:
+        # calibrated bound first; if the code under test now needs more, go straight to the
+        # attribute's bound (one retry) rather than climbing the whole ladder
+        tries = [cal, top]
     else:
         tries = [top]
     res = None
